@@ -421,15 +421,21 @@ def stepPc (H : Nat → Nat) (ff : Bool) (prog : Prog) (exO shO : Bool) (g : Sto
     | _ => (g, .gClose none (.err .jsonDecode))
   | .gMove rmeta plan total dirty terr =>
     match plan with
-    | [] => (g, .gClose (if dirty then some rmeta else none) (if terr then .err .typeError else .gcSize total))
+    | [] =>
+      if ff && dirty then ({ g with repo := .valid rmeta }, .gClose none (if terr then .err .typeError else .gcSize total))
+      else (g, .gClose (if dirty then some rmeta else none) (if terr then .err .typeError else .gcSize total))
     | c :: rest =>
       match g.final c.bid with
-      | none => (g, .gClose (if dirty then some rmeta else none) (.err .renameENOENT))
+      | none =>
+        if ff && dirty then ({ g with repo := .valid rmeta }, .gClose none (.err .renameENOENT))
+        else (g, .gClose (if dirty then some rmeta else none) (.err .renameENOENT))
       | some _ =>
         let rmeta' := erasePkg rmeta c.bid
         let g := { g with final := upd g.final c.bid none, nGc := upd g.nGc c.bid (g.nGc c.bid + 1), repo := .torn }
         match rest with
-        | [] => (g, .gClose (some rmeta') (if terr then .err .typeError else .gcSize total))
+        | [] =>
+          if ff then ({ g with repo := .valid rmeta' }, .gClose none (if terr then .err .typeError else .gcSize total))
+          else (g, .gClose (some rmeta') (if terr then .err .typeError else .gcSize total))
         | _ :: _ => (g, .gMove rmeta' rest total true terr)
   | .gClose pending r =>
     let g := match pending with
